@@ -838,3 +838,102 @@ def check_scan_loops(ctx, rep, funcs, rule=RULE + '.W7'):
             else:
                 rep.holds(rule, f, lp, 'the scan can reach a further element before it gives up', nontrivial=False)
     return n
+
+
+def check_representatives(ctx, rep, f, rule=RULE + '.rep'):
+    """a block is extended / named on the strength of a comparison with a REPRESENTATIVE of that same block:
+       r = set_element(S) ... if <test mentioning r>: X.add(v)        requires S is X
+       r = set_element(S); q = name(S'); ... delta1[q, a] = ..r..      requires S is S'
+    (a representative drawn from another set compares the element with the wrong class)"""
+    n = 0
+    reps = {}
+    for s in walk_no_nested(f.node):
+        if isinstance(s, ast.Assign) and len(s.targets) == 1 and isinstance(s.targets[0], ast.Name) and isinstance(s.value, ast.Call) \
+                and isinstance(s.value.func, ast.Name) and s.value.func.id == 'set_element' and len(s.value.args) == 1 and isinstance(s.value.args[0], ast.Name):
+            reps[s.targets[0].id] = (s.value.args[0].id, s)
+    if not reps:
+        return 0
+    for t in walk_no_nested(f.node):
+        if isinstance(t, ast.If):
+            cfg = ctx.facts(f).cfg
+            used = [r for r in reps if r in names_in(t.test) and cfg.dominates(cfg.n_of(reps[r][1]), cfg.n_of(t))]
+            if not used:
+                continue
+            for c in ast.walk(t):
+                if isinstance(c, ast.Call) and isinstance(c.func, ast.Attribute) and c.func.attr in ('add', 'append') and isinstance(c.func.value, ast.Name) and any(x is c for b in t.body for x in ast.walk(b)):
+                    X = c.func.value.id
+                    for r in used:
+                        S, site = reps[r]
+                        n += 1
+                        if S == X:
+                            rep.holds(rule, f, site, 'the element joins {} after a comparison with a representative of {} itself'.format(X, X))
+                        else:
+                            rep.violates(rule, f, site, 'the element is added to the block {} because it agrees with {} = set_element({}), a representative of a DIFFERENT set: members of {} are never compared with the block they join, so equivalent states end up in different blocks (or inequivalent ones in the same)'.format(X, r, S, X))
+    # naming: q = state(S'); r = set_element(S) used in the same loop body to define the transitions of q
+    for loop in walk_no_nested(f.node):
+        if not isinstance(loop, ast.For):
+            continue
+        names = {}
+        local_reps = {}
+        for s in loop.body if True else []:
+            pass
+        for s in ast.walk(loop):
+            if isinstance(s, ast.Assign) and len(s.targets) == 1 and isinstance(s.targets[0], ast.Name) and isinstance(s.value, ast.Call) and isinstance(s.value.func, ast.Name):
+                if s.value.func.id == 'set_element' and len(s.value.args) == 1 and isinstance(s.value.args[0], ast.Name):
+                    local_reps[s.targets[0].id] = (s.value.args[0].id, s)
+                elif s.value.func.id in f.nested and len(s.value.args) == 1 and isinstance(s.value.args[0], ast.Name):
+                    names[s.targets[0].id] = s.value.args[0].id
+        for s in ast.walk(loop):
+            if isinstance(s, ast.Assign) and isinstance(s.targets[0], ast.Subscript) and isinstance(s.targets[0].slice, ast.Tuple):
+                key_names = names_in(s.targets[0].slice)
+                for q, Sq in names.items():
+                    if q not in key_names:
+                        continue
+                    for r, (S, site) in local_reps.items():
+                        if r in names_in(s.value) or any(r in names_in(d.value) for d in ast.walk(loop) if isinstance(d, ast.Assign) and isinstance(d.targets[0], ast.Name) and d.targets[0].id in names_in(s.value)):
+                            n += 1
+                            if S == Sq:
+                                rep.holds(rule, f, site, 'the transitions of the state named after {} are read off a representative of {}'.format(Sq, S))
+                            else:
+                                rep.violates(rule, f, site, 'the transitions of the state named after the block {} are read off {} = set_element({}), a representative of another set'.format(Sq, r, S))
+    return n
+
+
+def check_size_fixpoint(ctx, rep, f):
+    """`size = ..; while size != len(X): <pass that grows X>; size = len(X)` and its variants: the loop compares the size
+    of the tracked set with a SNAPSHOT of that size.  The snapshot must be taken before the growing pass of the same
+    round (then the test after the round sees whether the pass changed anything); taken after the pass, snapshot and set
+    agree trivially and the loop stops after one pass."""
+    fx = ctx.facts(f)
+    cfg = fx.cfg
+    done = 0
+    for loop in [n for n in walk_no_nested(f.node) if isinstance(n, ast.While)]:
+        # (snapshot name, collection name) from a test  s != len(X)  in the loop header or in an `if ..: break`
+        tests = [(loop.test, 'header')] + [(st.test, 'break') for st in _loop_stmts(loop) if isinstance(st, ast.If) and any(isinstance(b, ast.Break) for b in st.body)]
+        pair = None
+        for t, kind in tests:
+            for c in ast.walk(t):
+                if isinstance(c, ast.Compare) and len(c.ops) == 1 and isinstance(c.ops[0], (ast.NotEq, ast.Eq, ast.Lt, ast.Gt)):
+                    sides = [c.left, c.comparators[0]]
+                    for a, b in (sides, sides[::-1]):
+                        if isinstance(a, ast.Name) and isinstance(b, ast.Call) and isinstance(b.func, ast.Name) and b.func.id == 'len' and b.args and isinstance(b.args[0], ast.Name):
+                            pair = (a.id, b.args[0].id, kind, c)
+        if pair is None:
+            continue
+        snap, coll, kind, cmpnode = pair
+        snaps = [st for st in _loop_stmts(loop) if isinstance(st, ast.Assign) and len(st.targets) == 1 and u(st.targets[0]) == snap
+                 and isinstance(st.value, ast.Call) and isinstance(st.value.func, ast.Name) and st.value.func.id == 'len' and st.value.args and u(st.value.args[0]) == coll]
+        muts = [st for (st, name) in _mutations_of(loop, {coll})]
+        done += 1
+        if not snaps:
+            rep.violates(RULE + '.W5', f, loop, 'the loop compares {} with len({}) but never records len({}) inside the loop'.format(snap, coll, coll))
+            continue
+        if not muts:
+            rep.undecided(RULE + '.W5', f, loop, 'no growth of {} found in the size-controlled loop'.format(coll))
+            continue
+        ok = all(any(cfg.dominates(cfg.n_of(s), cfg.n_of(m)) for s in snaps) for m in muts)
+        if ok:
+            rep.holds(RULE + '.W5', f, loop, 'the size snapshot {} = len({}) is taken before the growing pass of the same round'.format(snap, coll))
+        else:
+            rep.violates(RULE + '.W5', f, snaps[0], 'the size snapshot {0} = len({1}) is taken AFTER the pass that grows {1}: when the loop test compares {0} with len({1}) the two agree trivially, so only one pass is ever made and facts that need a second pass (a variable nullable only through a chain of other variables) are missed'.format(snap, coll))
+    return done
